@@ -230,11 +230,14 @@ check("C08",
       "level for the value keywords (C08Complete): every list of statements keyword+value whose shape is what the generated table gives the keyword (yes/no, number, "
       "string, { list }, existing user, existing directory), with distinct keywords in ANY order, is accepted and leaves exactly one variable per statement "
       "(complete_tokens); ${name} is the configured value (value_configured), the table's default when not given (value_default); the file validates iff all "
-      "required keywords are among the statements (accepted_iff_required). Correspondence: every "
+      "required keywords are among the statements (accepted_iff_required). From the text (C08Lex): the lexer reads the plain rendering `keyword value\\n` of such a "
+      "list back as exactly its tokens with no diagnostic (lex_render), so config_parse accepts the text and holds the configured values (complete_text); blanks and "
+      "comment lines in front of any token change nothing (lex_skips_space, lex_skips_comment). Correspondence: every "
       "generated configuration (five modes, every settable keyword, shuffled order, comments/whitespace, 1-17 regress entries with all options, 1-17 steps, lock "
       "file or not) and every single-edit corruption goes through the real robsd-config with a template asking for all variables; exit status and stdout are "
       "compared with Conf.configCmd on the same bytes and with the generator's own expectation.",
-      "Partial: completeness is proved at the token level for the value keywords only; for regress/step statements with option words, glob keywords and for the "
-      "lexer (text -> tokens, whitespace and comment layout) acceptance of every grammar-derived text is what the generator + correspondence sample. glob(3), getpwnam(3), stat(2), MACHINE/MACHINE_ARCH and the egress addresses are parameters of the model; "
+      "Partial: completeness is proved for the value keywords (yes/no, number, string, list, user, directory) from tokens and from the plain text layout; for "
+      "regress/step statements with option words, glob keywords, regress-timeout and arbitrary layouts of a whole file, acceptance of every grammar-derived text is "
+      "what the generator + correspondence sample. glob(3), getpwnam(3), stat(2), MACHINE/MACHINE_ARCH and the egress addresses are parameters of the model; "
       "-v var=val is not modelled. Known findings: skip / robsddir accepted but undocumented. Trusted: Lean kernel; translator; harness; ASan.",
       "DESIGN.md#c08")
